@@ -538,6 +538,10 @@ func execRRSIG(f []string) vlib.Res {
 	if ok && err != nil {
 		impl = "ok-with-error"
 	}
+	if !ok && err == nil {
+		// (false, nil): "could not be judged" — every caller reads that as an INSECURE zone
+		impl = "undecided"
+	}
 
 	// ---- oracle: what the property demands of an accepted response
 	zone := tokLabels(c.zone)
@@ -604,6 +608,17 @@ func execRRSIG(f []string) vlib.Res {
 			if !mySupportedAlgs[s.alg] || !underOrEqual(tokLabels(g.owner), tokLabels(s.signer)) {
 				continue
 			}
+			// a denial record is never the product of wildcard expansion (RFC 4035 §2.3, RFC 4592 §4.6)
+			if g.typ == int(dns.TypeNSEC) || g.typ == int(dns.TypeNSEC3) {
+				ol := tokLabels(g.owner)
+				n := len(ol)
+				if n > 0 && string(ol[0]) == "*" {
+					n--
+				}
+				if s.labels < n {
+					continue
+				}
+			}
 			for _, k := range c.K {
 				if c.tv[[2]int{s.id, k.id}] && labelsEqual(keyOwner[k.id], tokLabels(s.signer)) && k.proto == 3 && k.flags&256 != 0 {
 					good = true
@@ -617,6 +632,10 @@ func execRRSIG(f []string) vlib.Res {
 	or := "ok"
 	accepted := impl == "ok"
 	switch {
+	case impl == "undecided":
+		// a response with records to sign for is verified or bogus; "insecure" is decided from the DS chain,
+		// never from what the (rewritable) RRSIG fields of the response itself claim
+		or = fail("rrsig/unjudged-response-passed-on-as-insecure", "zone=%s", c.zone)
 	case accepted && foreign != "":
 		or = fail("rrsig/accepted/foreign-answer-record", "owner=%s zone=%s", foreign, c.zone)
 	case accepted && bad != "" && !unknownWindow:
